@@ -16,6 +16,7 @@ theorem add_empty (fuel : Nat) (r : Rect) : RectSet.add (fuel + 1) [] r = some [
 theorem subtract_single {fuel : Nat} {sr hole : Rect} {s' : List Rect}
     (h : RectSet.subtract fuel [sr] hole = some s') (hsr : sr.Nonempty) (hh : hole.Nonempty) :
     (∀ r ∈ s', r.Nonempty) ∧ ∀ l c, Covered s' l c ↔ (sr.Mem l c ∧ ¬ hole.Mem l c) := by
+  rw [RectSet.subtract_of_nonempty _ _ _ hh] at h
   have hs : ∀ r ∈ [sr], r.Nonempty := by intro r hr; simp at hr; rw [hr]; exact hsr
   rw [RectSet.subtract_of_nonempty fuel [sr] hole hh] at h
   have hb := RectSet.subtractFrom_bounds fuel [sr] hole 0 s' h hh hs
